@@ -27,7 +27,7 @@
 		VP_CNT(g_wake_calls); g_wake_cv = nondet_ptr(); VP_CNT(g_wake_at_cb);  \
 		VP_CNT(g_idrm_calls); g_idrm_id = nondet_u64(); VP_CNT(g_idrm_at_cb);  \
 		g_env_closes = nondet_bool(); VP_CNT(g_env_closed); g_log_level = nondet_int(); \
-		g_owned = nondet_bool(); g_sole_a = nondet_bool(); g_sole_b = nondet_bool(); \
+		g_mp1 = nondet_ptr(); g_mp2 = nondet_ptr(); g_owned = nondet_bool(); g_sole_a = nondet_bool(); g_sole_b = nondet_bool(); \
 		VP_HAVOC_SYNC();                                                       \
 	} while (0)
 void h_pipe_close(void) { nni_pipe *p; VP_HAVOC_GHOSTS(); nni_pipe_close(p); VP_CANARY(); }
@@ -47,3 +47,5 @@ void h_dialer_connect_cb(void) { void *arg; VP_HAVOC_GHOSTS(); dialer_connect_cb
 void h_dialer_start_aio(void) { nni_dialer *d; unsigned flags; nni_aio *aiop; VP_HAVOC_GHOSTS(); nni_dialer_start_aio(d, flags, aiop); VP_CANARY(); }
 void h_dialer_start(void) { nni_dialer *d; unsigned flags; VP_HAVOC_GHOSTS(); nni_dialer_start(d, flags); VP_CANARY(); }
 void h_dialer_stop(void) { nni_dialer *d; VP_HAVOC_GHOSTS(); nni_dialer_stop(d); VP_CANARY(); }
+void h_listener_shutdown(void) { nni_listener *l; VP_HAVOC_GHOSTS(); nni_listener_shutdown(l); VP_CANARY(); }
+void h_dialer_shutdown(void) { nni_dialer *d; VP_HAVOC_GHOSTS(); nni_dialer_shutdown(d); VP_CANARY(); }
